@@ -126,6 +126,7 @@ pub fn replay(w: &Value) -> Vec<(String, String)> {
                 l,
                 w["large"].as_bool().unwrap_or(false),
             ),
+            "seq" => crate::seq::replay_case(w, l),
             "round" => round_case(
                 w["coeff"].as_str().unwrap().parse().unwrap(),
                 w["scale"].as_u64().unwrap() as u8,
@@ -250,6 +251,15 @@ pub fn run(tier: Tier) -> i32 {
         run.par_for(&fr, || RoundingMode::set_default(mode), |&(a, p, n), l| round_case(a, p, n, mode, l));
     }
     run.stage("round-negative-n-frontier", json!({"cases_per_mode":fr.len()}));
+
+    // sequence exploration: chained operations from a seed set, results fed back as operands
+    {
+        let (d, cap) = if tier.thorough() { (3, 12000) } else { (2, 3000) };
+        let modes: Vec<RoundingMode> = if tier.thorough() { ALL_MODES.to_vec() } else { vec![ALL_MODES[5], ALL_MODES[7], ALL_MODES[0]] };
+        let (st, tr) = crate::seq::explore(&run, &[crate::seq::SOp::Round], d, cap, &modes);
+        run.stage("sequence exploration (breadth-first over reachable Decimals)", json!({"depth": d, "states": st, "transitions": tr, "modes": modes.len()}));
+        run.set_extra("sequence_exploration", json!({"depth": d, "states": st, "transitions": tr, "seeds": crate::seq::seeds().len(), "state_cap_per_level": cap}));
+    }
 
     // required classes: every kernel class (mode x sign x q%10 x rem class)
     let mut required = Vec::new();
